@@ -138,6 +138,16 @@ def base(seed, force_off=False):
         srv["applications"] = [{"type": "database-client", "options": {"db_server_ip": db_ip}}]
     for h in hosts[:-1]:
         _software(rng, h, db_ip, web_ip)
+    # software every host installs by itself, declared again by the scenario (with its own options): drawn from a generator of
+    # its own so that the rest of the family stays what it was
+    rng2 = random.Random(seed * 104729 + 7)
+    for h in hosts:
+        if rng2.random() < 0.35:
+            svcs = h.setdefault("services", [])
+            if rng2.random() < 0.6 and not any(x.get("type") == "dns-client" for x in svcs):
+                svcs.append({"type": "dns-client", "options": {"dns_server": web_ip}})
+            if rng2.random() < 0.6 and not any(x.get("type") == "ntp-client" for x in svcs):
+                svcs.append({"type": "ntp-client", "options": {"ntp_server_ip": db_ip}})
     if len(hosts) > 2 and (rng.random() < 0.4 or force_off):
         hosts[1]["operating_state"] = "OFF"
     elif force_off:
